@@ -8,6 +8,15 @@ typedef struct QSslSocket { bool encrypted; bool handshake_started; } QSslSocket
 static inline void QSslSocket_startClientEncryption(QSslSocket *s) { s->handshake_started = true; }
 bool gh_supportsSsl;
 
+/* A-QTIMER  a QTimer is armed by start() and disarmed by stop(); its timeout signal is emitted only while it is armed;
+ *           setInterval() / callOnTimeout() / setSingleShot() do not arm it.  Interval values are abstracted (any duration). */
+typedef struct QTimer { bool active; } QTimer;
+static inline void QTimer_start(QTimer *t) { t->active = true; }
+static inline void QTimer_stop(QTimer *t) { t->active = false; }
+static inline void QTimer_setInterval(QTimer *t) { (void)t; }
+static inline void QTimer_start_with_interval(QTimer *t) { t->active = true; }   /* start(msec) = setInterval(msec); start() */
+
+typedef int qtimeout;   /* QXmpp::TimeoutError: empty tag struct */
 typedef int qtask;      /* QXmppTask<T>: opaque handle */
 typedef int qpromise;   /* QXmppPromise<void>: 0 = pending, 1 = finished */
 typedef int qnonza;     /* an empty nonza struct (StarttlsProceed) */
@@ -22,7 +31,6 @@ typedef struct Sasl2Manager { int opaque; } Sasl2Manager;
 typedef struct BindManager { int opaque; } BindManager;
 typedef struct C2sStreamManager { int opaque; } C2sStreamManager;
 typedef struct CsiManager { int opaque; } CsiManager;
-typedef struct PingManager { int opaque; } PingManager;
 typedef struct StreamAckManager { int opaque; } StreamAckManager;
 typedef struct OutgoingIqManager { int opaque; } OutgoingIqManager;
 typedef struct Sasl2StreamFeature { int opaque; } Sasl2StreamFeature;
@@ -33,3 +41,4 @@ typedef struct ConnectionError { int streamError; } ConnectionError;            
 typedef struct StreamErrorElement { int opaque; } StreamErrorElement;
 typedef struct StreamErrorResult { bool is_element; StreamErrorElement v; } StreamErrorResult;                 /* std::variant<StreamErrorElement, QXmppError> */
 static inline StreamErrorElement *StreamErrorResult_get_if_element(StreamErrorResult *r) { return r->is_element ? &r->v : NULL; }   /* std::get_if<StreamErrorElement> */
+typedef struct QXmppPingIq { qstr to; } QXmppPingIq;   /* XEP-0199 ping request: only the addressee is set here */
